@@ -348,6 +348,9 @@ def handle (c : Case) : Res := Id.run do
   let some fac := decodeFac c | return Res.propFalse "factors contain non-finite values" tags
   ------------------------------------------------------------------ C03
   if prop == "C03" then
+    -- `wfb` is the predicate whose soundness is proved (Props/C03.lean); `wfSC` only words the message
+    if !Struct.wfb fac then
+      return Res.propFalse s!"structure: {(Struct.wfSC fac).getD "rejected by wfb"}" tags
     match Struct.wfSC fac with
     | some msg => return Res.propFalse s!"structure: {msg}" tags
     | none => return Res.ok (n ≥ 2 ∧ fac.L.nsuper + 1 < n ∨ n ≥ 3) (tags ++ [if fac.L.nsuper + 1 < n then "multicol-snode" else "singletons"]) "exact"
